@@ -29,7 +29,8 @@ import json,sys,re
 id,k,head,tests,flags,suite,rc_mut,rc_head=sys.argv[1:]
 d='/verif/seeded/%s-%s'%(id,k)
 notes=open(d+'/notes.md').read() if True else ''
-meta={"id":"%s-%s"%(id,k),"breaks_property":id,"base_commit":head,
+import re as _re
+meta={"id":"%s-%s"%(id,k),"breaks_property":_re.sub(r"r\d+$","",id),"base_commit":head,
  "needs_to_manifest":"see notes.md (written by the independent sub-agent that produced the change)",
  "confirmed_by":"tools/verify_seed.sh in scratch worktree /tmp/wt/VAR",
  "ran":["git apply patch.diff","go build ./...","go test -vet=off -count=1 ./...  -> "+suite,
